@@ -20,7 +20,7 @@ func init() {
 		Rule: "seeded (seed, 32-byte blind incl. all-zero and all-0xff, context in {nil, empty, 1 byte, 200 bytes}, message) and all pairs from a pool of 6 blinds. Oracle: blinded key bytes == encode(k*A) with k = int_le(SHA-512(blind||0x00||ctx)[0:32]) mod L computed with crypto/sha512 and the math/big Edwards model; " +
 			"BlindKeySignWithContext is deterministic, its signature verifies under the blinded key with crypto/ed25519.Verify and with this package's Verify and not under the original key; Unblind(Blind(A)) == A == Blind(Unblind(A)); two blindings commute; another blind or another context gives another key. " +
 			"distinct_nontrivial = distinct (blind class, context length, message length) keys",
-		Floors:      []string{"blinded_key_equals_reference", "signature_verifies_std_and_fork", "signature_deterministic", "unblind_inverts", "commutes", "blind_separation", "context_separation", "signature_fails_under_original"},
+		Floors:      []string{"blinded_key_equals_reference", "signature_verifies_std_and_fork", "signature_deterministic", "unblind_inverts", "commutes", "blind_separation", "context_separation", "signature_fails_under_original", "arguments_share_one_buffer"},
 		Assumptions: []string{"honest public keys lie in the prime-order subgroup", "crypto/ed25519 is the standard verifier"},
 		Run:         runC15,
 	})
@@ -80,8 +80,18 @@ func runC15(c *core.Ctx) {
 			}
 			k := c15Scalar(blind, ctx)
 			want := ref.EdEncode(ref.EdMul(k, A))
+			// arguments: private copies, or (every fourth case) neighbouring sub-slices of one caller buffer,
+			// public key | blind | context | second blind, each with the rest of the buffer as spare capacity
+			argPub, argBlind, argCtx := clone(pub), clone(blind), clone(ctx)
+			var shared, sharedSnap []byte
+			if i%4 == 3 {
+				shared = append(append(append(append([]byte{}, pub...), blind...), ctx...), blind2...)
+				sharedSnap = clone(shared)
+				argPub, argBlind, argCtx = shared[0:32], shared[32:64], shared[64:64+len(ctx)]
+				c.Class("arguments_share_one_buffer")
+			}
 			// (a)
-			bpk, err := ed25519.BlindPublicKeyWithContext(ed25519.PublicKey(clone(pub)), clone(blind), clone(ctx))
+			bpk, err := ed25519.BlindPublicKeyWithContext(ed25519.PublicKey(argPub), argBlind, argCtx)
 			if err != nil {
 				bad("blind-error", err.Error())
 				return
@@ -110,7 +120,8 @@ func runC15(c *core.Ctx) {
 				}
 			}
 			// (b)
-			sig := ed25519.BlindKeySignWithContext(priv, clone(msg), clone(blind), clone(ctx))
+			sig := ed25519.BlindKeySignWithContext(priv, clone(msg), argBlind, argCtx)
+			_ = sharedSnap // writes into the caller's buffer are C16's business; here only the results are judged
 			sig2 := ed25519.BlindKeySignWithContext(priv, clone(msg), clone(blind), clone(ctx))
 			if !bytes.Equal(sig, sig2) {
 				bad("signature-not-deterministic", "two calls with equal arguments give different signatures")
